@@ -26,7 +26,7 @@ func NewBmtWriter(next pipeline.ChainWriter) pipeline.ChainWriter {
 // ChainWrite writes data in chain. It assumes span has been prepended to the data.
 // The span can be encrypted or unencrypted.
 func (w *bmtWriter) ChainWrite(p *pipeline.PipeWriteArgs) error {
-	if len(p.Data) < boson.SpanSize {
+	if len(p.Data) < boson.SpanSize || len(p.Data) > boson.ChunkSize+boson.SpanSize {
 		return errInvalidData
 	}
 	hasher := bmtpool.Get()
